@@ -7,7 +7,7 @@ from vlib.rat import parse
 from checks import solvefam as sf
 
 DEFINITIVE = {1, 2, 3}
-FAMS = ["small-rand", "small-int", "degenerate", "illcond", "thin", "planted-opt", "planted-inf", "tiny", "planted-unb"]
+FAMS = ["small-rand", "small-int", "degenerate", "illcond", "thin", "planted-opt", "planted-inf", "tiny", "planted-unb", "knife"]
 
 
 def all_solves(script, events):
@@ -36,6 +36,8 @@ def repeat_script(rnd, m, cfg):
 def gen_group(tier, seed, k, nconf):
     rnd = run.rng("C04", tier, seed, "grp", k)
     fam = FAMS[k % len(FAMS)]
+    if tier == "thorough" and k % 50 == 49:
+        fam = "big"           # every driver on an LP that needs several refactorizations; minutes per group
     m = gen_lp.family(rnd, fam)
     cases = []
     if tier == "thorough" and k % 10 == 0:
